@@ -16,11 +16,11 @@ tvars == <<st, l, dv, why>>
 
 DevOrder == <<KF_C05_NonPositiveTail, KF_C05_DenseNumExceedsSize, KF_C05_FallbackNumExceedsSize,
               KF_C05_PanelNumNotCapped, KF_C05_ConeCylBucklingMode, KF_C05_LoadOnStiffnessless, KF_C06_RoundedSort, KF_C06_SparseNumExceedsSize,
-              KF_C06_ReducedDofScatter, KF_C06_DenseColumnSum>>
+              KF_C06_ReducedDofScatter, KF_C06_DenseColumnSum, KF_C06_SingularMassModes>>
 KfVerdict == <<"kf:KF_C05_NonPositiveTail", "kf:KF_C05_DenseNumExceedsSize", "kf:KF_C05_FallbackNumExceedsSize",
                "kf:KF_C05_PanelNumNotCapped", "kf:KF_C05_ConeCylBucklingMode", "kf:KF_C05_LoadOnStiffnessless",
                "kf:KF_C06_RoundedSort", "kf:KF_C06_SparseNumExceedsSize",
-               "kf:KF_C06_ReducedDofScatter", "kf:KF_C06_DenseColumnSum">>
+               "kf:KF_C06_ReducedDofScatter", "kf:KF_C06_DenseColumnSum", "kf:KF_C06_SingularMassModes">>
 Relevant(api, i) == IF IsLb(api) THEN i <= 6 ELSE i >= 7
 DevSet(i) == IF i = 0 THEN {} ELSE {DevOrder[i]}
 
@@ -134,7 +134,8 @@ Mismatch(s, e) ==
        ELSE IF ~(\A j \in 1..Len(o.nzrows) : o.nzrows[j] \in support) THEN "zero-pattern"
        ELSE IF \E c \in 1..o.nvals : ~ValClose(s, o.vals[c], s.vals[c], scale) THEN "values"
        ELSE IF \E c \in 1..Min2(o.nvals, nc) :
-                    ~s.unspec /\ ~InfiniteMultiplier(s, c) /\ ~ResOK(o.res[c], o.vals[c]) THEN "residual"
+                    ~s.unspec /\ ~ModesUnspecified(s) /\ ~InfiniteMultiplier(s, c) /\ ~ResOK(o.res[c], o.vals[c])
+            THEN "residual"
        ELSE IF ~LbObsOrder(s, o) \/ ~FreqObsOrder(s, o) THEN "ordering"
        ELSE IF ~PeerOK(s, o, scale) THEN "path-agreement"
        ELSE ""
